@@ -360,3 +360,142 @@ def matvec(e):
         s2, x = signed(e.right)
         return s * s1 * s2, m, x
     return None
+
+
+# ----------------------------------------------------------------- geometry caches (reuse-if-present vs persistent)
+def persistent_call_facts(repo, modname, call):
+    """For a call of a package function that has a `persistent` parameter: dict(persistent, name, container) with
+    persistent in (True, False, None=not constant), name = attribute name (const or None), container = e.g. 'faces'.
+    None when the callee is not such a function."""
+    fname = au.call_tail(call)
+    target = None
+    if isinstance(call.func, ast.Name):
+        target = repo.resolve_func(modname, call.func.id)
+    elif isinstance(call.func, ast.Attribute) and isinstance(call.func.value, ast.Name):
+        r = repo.resolve(modname, call.func.value.id)
+        if r and r[0] == "module" and r[1] in repo.modules:
+            target = repo.resolve_func(r[1], call.func.attr)
+    if not target or target[1] is None:
+        return None
+    mod, fn = target
+    a = fn.args
+    pos = [x.arg for x in a.posonlyargs + a.args]
+    if "persistent" not in pos + [x.arg for x in a.kwonlyargs]:
+        return None
+    defaults = dict(zip(pos[len(pos) - len(a.defaults):], a.defaults))
+    defaults.update({x.arg: d for x, d in zip(a.kwonlyargs, a.kw_defaults) if d is not None})
+    given = {}
+    for i, arg in enumerate(call.args):
+        if i < len(pos):
+            given[pos[i]] = arg
+    for kw in call.keywords:
+        if kw.arg:
+            given[kw.arg] = kw.value
+
+    def val(pname):
+        e = given.get(pname, defaults.get(pname))
+        return e.value if isinstance(e, ast.Constant) else None
+    pers = val("persistent")
+    if not isinstance(pers, bool):
+        pers = None
+    container = None
+    mesh_p = pos[0] if pos else "mesh"
+    for c in au.calls(fn):
+        if au.call_tail(c) == "create_attribute" and isinstance(c.func, ast.Attribute) and isinstance(c.func.value, ast.Attribute) \
+                and is_name(c.func.value.value, mesh_p) and c.args and is_name(c.args[0], "name"):
+            container = c.func.value.attr
+    nm = val("name")
+    return {"persistent": pers, "name": nm if isinstance(nm, str) else None, "container": container, "callee": mod.name + "." + fn.name}
+
+
+def reused_attributes(fn_list):
+    """{(container, name)} of attributes read back through `X.<container>.has_attribute(NAME)` / get_attribute(NAME)"""
+    out = set()
+    for fn in fn_list:
+        for c in au.calls(fn):
+            if au.call_tail(c) in ("has_attribute", "get_attribute") and isinstance(c.func, ast.Attribute) \
+                    and isinstance(c.func.value, ast.Attribute) and c.args and isinstance(au.const(c.args[0]), str):
+                out.add((c.func.value.attr, au.const(c.args[0])))
+    return out
+
+
+# ----------------------------------------------------------------- orientation of the border walk
+def border_walk_shape(fn):
+    """Facts about `extract_border_cycle`: index of the first neighbour taken at the start, scan direction of the
+    inner choice loop, presence of the first-match break.  Values are None when the construct is not recognised."""
+    ps = au.params(fn)
+    start = ps[1] if len(ps) > 1 else None
+    whiles = [s for s in fn.body if isinstance(s, ast.While)]
+    out = {"start": start, "while": whiles[0] if len(whiles) == 1 else None, "first": None, "scan": None, "loop": None,
+           "cur": None, "break": None}
+    wl = out["while"]
+    if wl is None or start is None:
+        return out
+    b = sym.Bindings(fn)
+    for lp in au.stmts(wl.body):
+        if not (isinstance(lp, ast.For) and isinstance(lp.target, ast.Name)):
+            continue
+        it = lp.iter
+        direction = "forward"
+        if isinstance(it, ast.Call) and au.call_tail(it) == "reversed" and len(it.args) == 1:
+            it, direction = it.args[0], "backward"
+        elif isinstance(it, ast.Subscript) and isinstance(it.slice, ast.Slice) and it.slice.lower is None and it.slice.upper is None \
+                and au.const(it.slice.step) == -1:
+            it, direction = it.value, "backward"
+        if isinstance(it, ast.Call) and au.call_tail(it) == "vertex_to_vertices" and len(it.args) == 1 and isinstance(it.args[0], ast.Name):
+            out["loop"], out["scan"], out["cur"] = lp, direction, it.args[0].id
+            out["break"] = any(isinstance(x, ast.Break) for x in au.stmts(lp.body))
+    if out["cur"]:
+        c0 = b.reaching(out["cur"], wl)
+        if isinstance(c0, ast.Subscript) and isinstance(c0.value, ast.Call) and au.call_tail(c0.value) == "vertex_to_vertices" \
+                and len(c0.value.args) == 1 and is_name(c0.value.args[0], start):
+            k = au.const(c0.slice)
+            out["first"] = {0: "head", -1: "tail"}.get(k, "other") if isinstance(k, int) else "other"
+    return out
+
+
+def check_walk_orientation(ctx, rule, modname, fn):
+    sh = border_walk_shape(fn)
+    site = ctx.site(modname, fn, sh["loop"] or sh["while"] or fn)
+    if sh["first"] is None or sh["scan"] is None:
+        ctx.fail(rule, site, "extract_border_cycle: first step `vertex_to_vertices(start)[k]` / choice loop over vertex_to_vertices(current) not found",
+                 "the orientation of the walk cannot be established")
+        return
+    ok = (sh["first"], sh["scan"]) in (("head", "forward"), ("tail", "backward"))
+    ctx.check(ok, rule, site, "extract_border_cycle: the first step and the scan of the neighbours do not walk the border in one orientation",
+              f"first step takes the {sh['first']} of the sorted neighbour list, the choice loop scans it {sh['scan']}: the sorted neighbours of a "
+              "border vertex start and end with its two border neighbours, interior chords to other border vertices lie in between.  Leaving "
+              "through the head, the vertex just left is the tail of the next list and the next border vertex its head (first match); leaving "
+              "through the tail while scanning forward meets the chords first: the walk follows an interior edge",
+              note=f"walk leaves through the {sh['first']} and scans {sh['scan']}")
+    ctx.check(bool(sh["break"]), rule, site, "extract_border_cycle: the choice loop does not stop at the first admissible neighbour",
+              "only the first admissible neighbour in scan order is guaranteed to be joined by a border edge", note="first match wins")
+
+
+def check_sort_contract(ctx, rule, modname="mesh.datatypes.surface", qual="SurfaceMesh._Connectivity._sort_vertex_neighborhoods"):
+    """the clause of the sorting contract the walk relies on: neighbours whose half edge (A, v) has no corner sort first, ascending"""
+    fn = ctx.repo.func(modname, qual)
+    site = ctx.site(modname, fn)
+    ok_default = ok_sort = False
+    keyname = None
+    for st in au.stmts(fn.body):
+        if isinstance(st, ast.Assign) and len(st.targets) == 1 and isinstance(st.targets[0], ast.Subscript) \
+                and isinstance(st.value, ast.Call) and au.call_tail(st.value) == "get" and len(st.value.args) == 2 \
+                and isinstance(st.value.args[0], ast.Call) and au.call_tail(st.value.args[0]) == "half_edge_to_corner":
+            d = st.value.args[1]
+            neg_inf = isinstance(d, ast.UnaryOp) and isinstance(d.op, ast.USub) and (
+                (isinstance(d.operand, ast.Call) and au.call_tail(d.operand) == "float" and d.operand.args and au.const(d.operand.args[0]) == "inf")
+                or au.src(d.operand) in ("math.inf", "np.inf", "inf"))
+            ok_default = neg_inf
+            keyname = st.targets[0].value.id if isinstance(st.targets[0].value, ast.Name) else None
+    for c in au.calls(fn):
+        if au.call_tail(c) == "sort" and isinstance(c.func, ast.Attribute) and isinstance(c.func.value, ast.Subscript) \
+                and au.is_self_attr(c.func.value.value, "_adjV2V"):
+            kws = {k.arg: k.value for k in c.keywords}
+            key = kws.get("key")
+            ok_sort = isinstance(key, ast.Lambda) and keyname is not None and isinstance(key.body, ast.Subscript) \
+                and is_name(key.body.value, keyname) and "reverse" not in kws
+    ctx.check(ok_default and ok_sort, rule, site,
+              "_sort_vertex_neighborhoods: the neighbour without a half-edge corner is not sorted first (key -inf, ascending)",
+              "extract_border_cycle relies on the sorted neighbour list of a border vertex starting with one border neighbour and ending with the other",
+              note="sorting contract: corner-less border neighbour first, ascending")
